@@ -43,6 +43,8 @@ def defs(style="single"):
 
 TUPLE_DEFS = ("#[derive(Serialize, Deserialize)]\npub struct Pair(pub i32, pub Foo);\n\n#[derive(Serialize, Deserialize)]\npub struct Id(pub u32);\n\n")
 TUPLE_NAMES = ("Pair", "Id")
+CONTAINER_LIKE_DEFS = ("#[derive(Serialize, Deserialize)]\npub struct MapMarker {\n    pub lat: f64,\n}\n\n#[derive(Serialize, Deserialize)]\npub enum RecordingState {\n    Idle,\n    Running,\n}\n\n"
+                       "#[derive(Serialize, Deserialize)]\npub struct Records {\n    pub n: u32,\n}\n\n#[derive(Serialize, Deserialize)]\npub struct PromiseLike {\n    pub ok: bool,\n}\n\n")
 GENERIC_DEFS = "#[derive(Serialize, Deserialize)]\npub struct Page<T> {\n    pub items: Vec<T>,\n    pub total: u32,\n}\n\n"
 # names that dangle when an instantiation Page<Foo> is printed verbatim (and, in Zod mode, read as the comparison Page < Foo > Schema)
 GENERIC_DANGLING = {"Page", "PageSchema", "T", "Foo", "Kind", "Schema", "FooSchema", "KindSchema", "Vec", "Option"}
@@ -200,6 +202,14 @@ def run(tier):
                         style = rg.DERIVE_STYLES[len(jobs) % len(rg.DERIVE_STYLES)]   # equivalent layouts of the derive attributes
                         jobs.append((cli, "%s/%s/%s" % (site, plabel, kind), site_project(site, t, we, style), mode,
                                      {"site": site, "position": plabel, "kind": kind, "type": t}))
+    # project types whose names merely BEGIN like a TypeScript container or global (Map.., Record.., Promise..)
+    for kind in ("MapMarker", "RecordingState", "Records", "PromiseLike"):
+        for (plabel, pf) in positions[:9]:
+            t = pf(rg.N(kind))
+            for site in SITES:
+                for mode in ("none", "zod"):
+                    jobs.append((cli, "%s/%s/%s" % (site, plabel, kind), site_project(site, t, extra_defs=CONTAINER_LIKE_DEFS), mode,
+                                 {"site": site, "position": plabel, "kind": "container-like-name", "type": t}))
     # serde tuple structs (struct Id(pub u32); struct Pair(pub i32, pub Foo);) are project-defined serde structs as well
     for kind in TUPLE_NAMES:
         for (plabel, pf) in positions[:8]:
